@@ -83,9 +83,21 @@ impl XmlConverter {
                         }
                         if !uri.is_empty() && !prefix.is_empty() {
                             ns = Some((prefix, uri));
+                        } else {
+                            return Err(BuildError::new(
+                                "XML ns tuples must have a prefix and a uri field",
+                                ErrorType::TypeFail,
+                            )
+                            .to_boxed());
                         }
                     } else if let Val::Str(s) = val.as_ref() {
                         ns = Some(("", s));
+                    } else if !val.is_empty() {
+                        return Err(BuildError::new(
+                            "XML ns fields must be a string or a tuple",
+                            ErrorType::TypeFail,
+                        )
+                        .to_boxed());
                     }
                 }
                 if field.as_ref() == "attrs" {
